@@ -11,7 +11,7 @@ GROUP_B = ("Z5", "Z6", "Z7", "Z8")
 QUICK = {"Z2": 24000, "Z3": 5000, "Z4": 5000, "Z5": 12000, "Z7": 4000, "Z8": 4000}
 
 
-def plan_docs(tier, seed, complete=False, quick=None, zones=("Z1", "Z2", "Z3", "Z4", "Z5", "Z6", "Z7", "Z8"), z1_all=True, limit=None, check=None, force_b=False):
+def plan_docs(tier, seed, complete=False, quick=None, zones=("Z1", "Z2", "Z3", "Z4", "Z5", "Z6", "Z7", "Z8"), z1_all=True, limit=None, check=None, force_b=False, ranges=None):
     quick = quick or QUICK
     items = []
     zinfo = {}
@@ -24,11 +24,15 @@ def plan_docs(tier, seed, complete=False, quick=None, zones=("Z1", "Z2", "Z3", "
         n = U.size(z)
         if limit and z in limit:
             n = min(n, limit[z])
+        pool = None
+        if ranges and z in ranges:
+            pool = [i for a, b in ranges[z] for i in range(a, min(b, U.size(z)))]
+            n = len(pool)
         if complete or tier == "thorough" or (z == "Z1" and z1_all) or z == "Z6":
             idx = range(n)
         else:
             idx = U.pick(z, seed, quick.get(z, 2000), 0, n)
-        idx = list(idx)
+        idx = [pool[i] for i in idx] if pool is not None else list(idx)
         zinfo[z] = {"universe": n, "run": len(idx)}
         items.extend(f"{z}:{i}" for i in idx)
     return items, zinfo
